@@ -288,6 +288,24 @@ impl Gen {
     }
 
     /// A request that needs a permission (data path, catalogue, query), issued by connection `c`.
+    /// A request on stream `focus` (the stream whose record was just changed), of the kinds the per-stream and
+    /// per-topic flags govern.
+    pub fn targeted_permission_probe(&mut self, model: &Model, c: usize, focus: u32) -> Option<Op> {
+        let stream = model.streams.get(&focus)?;
+        let topic = if stream.topics.is_empty() { None } else { Some(*self.rng.pick(&stream.topics.keys().copied().collect::<Vec<_>>())) };
+        let s = IdRef::Num(focus);
+        Some(match (self.rng.below(9), topic) {
+            (0 | 1, Some(t)) => Op::Send { c, stream: s, topic: IdRef::Num(t), part: Part::Id(1), msgs: vec![self.msg()] },
+            (2, Some(t)) => Op::Flush { c, stream: s, topic: IdRef::Num(t), partition: 1, fsync: false },
+            (3, Some(t)) => Op::Poll { c, stream: s, topic: IdRef::Num(t), partition: Some(1), who: self.who(), kind: PollKind::Offset(0), count: 5, auto_commit: false },
+            (4, Some(t)) => Op::GetTopic { c, stream: s, topic: IdRef::Num(t) },
+            (5, Some(t)) => Op::CreatePartitions { c, stream: s, topic: IdRef::Num(t), count: 1 },
+            (6, Some(t)) => Op::StoreOffset { c, stream: s, topic: IdRef::Num(t), partition: Some(1), who: self.who(), offset: 0 },
+            (7, _) => Op::GetTopics { c, stream: s },
+            _ => Op::GetStream { c, stream: s },
+        })
+    }
+
     pub fn permission_probe(&mut self, model: &Model, c: usize) -> Option<Op> {
         for _ in 0..12 {
             self.in_probe = true;
